@@ -229,7 +229,7 @@ class Roles:
             return [c for c in A.body.calls() if c.bb in A.blocks and c.node["callee"].get("local") and c.node["callee"].get("path") in lib.bodies]
         s_calls = {c.node["callee"]["path"] for c in local_calls("Start")}
         e_calls = {c.node["callee"]["path"] for c in local_calls("Empty")}
-        helper = {"parser::to_str"}
+        helper = set(decoders(lib))      # the strict byte -> String decoders, wherever they live
         both = (s_calls & e_calls) - {self.tp.name} - helper
         both = {p for p in both if not _is_pure_helper(lib, p)}
         if len(both) != 1:
@@ -388,7 +388,7 @@ def _sets_text(R, v):
     if bad:
         return False, "a path through the arm continues without setting text (%s)" % (bad[:2],)
     # other effects: only conversion calls
-    other = [cname(c.node) for c in ev.calls(v) if not (cname(c.node).startswith("quick_xml::events::Bytes") or c.node["callee"].get("path") == "parser::to_str" or
+    other = [cname(c.node) for c in ev.calls(v) if not (cname(c.node).startswith("quick_xml::events::Bytes") or c.node["callee"].get("path") in decoders(R.lib) or
              cname(c.node) in ("std::ops::Try::branch", "std::ops::FromResidual::from_residual") or cname(c.node) in mir.VALUE_PRESERVING)]
     if other:
         return False, "character-data arm has further effects: %s" % other[:3]
